@@ -204,7 +204,55 @@ def global_state():
                     if ak in ('__dict__', '__weakref__', '__doc__', '__module__'):
                         continue
                     snap['%s:%s.%s' % (v.__module__, v.__qualname__, ak)] = jdump(_state_value(av))
+        # function defaults are per-process mutable state too (a memo in a mutable default argument)
+        for k, v in list(vars(mod).items()):
+            fns = []
+            if isinstance(v, types.FunctionType) and getattr(v, '__module__', '') == mname:
+                fns.append((k, v))
+            elif isinstance(v, type) and getattr(v, '__module__', '') == mname:
+                for ak, av in list(vars(v).items()):
+                    f = getattr(av, '__func__', av)
+                    if isinstance(f, types.FunctionType):
+                        fns.append(('%s.%s' % (k, ak), f))
+            for name, f in fns:
+                if f.__defaults__ and any(isinstance(d, (dict, list, set)) for d in f.__defaults__):
+                    snap['%s:%s.__defaults__' % (mname, name)] = jdump([_state_value(d) for d in f.__defaults__])
+                if f.__kwdefaults__ and any(isinstance(d, (dict, list, set)) for d in f.__kwdefaults__.values()):
+                    snap['%s:%s.__kwdefaults__' % (mname, name)] = jdump(sorted((k2, _state_value(d)) for k2, d in f.__kwdefaults__.items()))
+    snap.update(environment_state())
     return snap
+
+
+def environment_state():
+    """Interpreter-global settings that a library call must leave as it found them (they are not in
+    the yaml package, but a later call - of the library or of anything else - observes them)."""
+    import decimal
+    import gc
+    import locale
+    import os
+    import signal
+    import sys
+    import warnings
+    env = {
+        'env:sys.getrecursionlimit': sys.getrecursionlimit(),
+        'env:sys.getswitchinterval': sys.getswitchinterval(),
+        'env:gc.isenabled': gc.isenabled(),
+        'env:gc.get_threshold': list(gc.get_threshold()),
+        'env:warnings.filters': [[f[0], str(f[1]), getattr(f[2], '__name__', str(f[2])), str(f[3]), f[4]] for f in warnings.filters],
+        'env:sys.gettrace': repr(sys.gettrace()),
+        'env:sys.getprofile': repr(sys.getprofile()),
+        'env:os.getcwd': os.getcwd(),
+        'env:os.environ': sorted(os.environ.items()),
+        'env:sys.path': list(sys.path),
+        'env:locale': list(locale.getlocale()),
+        'env:decimal.prec': decimal.getcontext().prec,
+        'env:sys.stdio': [id(sys.stdin), id(sys.stdout), id(sys.stderr)],
+        'env:signal.SIGINT': repr(signal.getsignal(signal.SIGINT)),
+        'env:sys.excepthook': id(sys.excepthook),
+        'env:sys.displayhook': id(sys.displayhook),
+        'env:int_max_str_digits': sys.get_int_max_str_digits() if hasattr(sys, 'get_int_max_str_digits') else None,
+    }
+    return {k: jdump(v) for k, v in env.items()}
 
 
 def state_diff(a, b):
